@@ -26,7 +26,7 @@ import (
 
 func TestMain(m *testing.M) {
 	bk.SetupEnv()
-	ev.C().Rule("rapid: maps flushed by a real aggregator from generated datapoints (name tokens over [A-Za-z0-9_.-], tags with distinct keys over [A-Za-z0-9_.:/-] plus a value-less tag, two hosts, finite values with <= 6 decimals, idle series, gsd_histogram timers, percentiles) x batch sizes 1..60 x sub-metric masks x graphite modes x compression, sent to every bundled backend variant over a scripted transport / loopback listener; every payload is decoded by a decoder written in the harness (validity) and the multiset of (series identity, value) decoded from all payloads of the flush is compared with the aggregate (every enabled sub-metric exactly once, nothing else), hard size limits checked; the statsd relay's bytes are parsed back with gostatsd's own lexer. Non-trivial = a flush spanning >= 2 payloads of some backend, or containing a histogram and a percentile timer")
+	ev.C().Rule("rapid: maps flushed by a real aggregator from generated datapoints (name tokens over [A-Za-z0-9_.-], tags with distinct keys over [A-Za-z0-9_.:/-] plus a value-less tag, two hosts, finite values (short decimals and values needing all 17 significant digits), idle series, gsd_histogram timers, percentiles) x batch sizes 1..60 x sub-metric masks x graphite modes x compression, sent to every bundled backend variant over a scripted transport / loopback listener; every payload is decoded by a decoder written in the harness (validity) and the multiset of (series identity, value) decoded from all payloads of the flush is compared with the aggregate (every enabled sub-metric exactly once, nothing else), hard size limits checked; the statsd relay's bytes are parsed back with gostatsd's own lexer. Non-trivial = a flush spanning >= 2 payloads of some backend, or containing a histogram and a percentile timer")
 	vt.Main(m)
 }
 
@@ -208,7 +208,11 @@ func compare(t vt.TB, variant string, got, want map[ident][]float64, ctxDesc str
 		sort.Float64s(w)
 		okc := len(g) == len(w)
 		for k := 0; okc && k < len(g); k++ {
-			okc = closeTo(g[k], w[k])
+			if strings.HasPrefix(variant, "graphite/") {
+				okc = closeTo(g[k], w[k]) // graphite's line format is "%f": six decimals by design
+			} else {
+				okc = sameFloat(g[k], w[k]) // JSON / protobuf / line-protocol numbers round-trip a float64
+			}
 		}
 		if !okc {
 			vt.Fail(t, "C17:series-values:"+variant, "%s: series %+v: payloads carry values %v, the aggregate has %v (%s)", variant, i, g, w, ctxDesc)
@@ -245,7 +249,7 @@ func datapointGen() *rapid.Generator[*gostatsd.Metric] {
 		case gostatsd.COUNTER:
 			m.Value = float64(rapid.IntRange(-5, 1000).Draw(t, "cv"))
 		default:
-			m.Value = float64(rapid.IntRange(-100000, 1000000).Draw(t, "v")) / float64(rapid.SampledFrom([]int{1, 10, 1000, 1000000}).Draw(t, "div"))
+			m.Value = float64(rapid.IntRange(-100000, 1000000).Draw(t, "v")) / float64(rapid.SampledFrom([]int{1, 10, 1000, 1000000, 3, 7000000}).Draw(t, "div"))
 			if m.Type == gostatsd.TIMER {
 				m.Rate = rapid.SampledFrom([]float64{1, 0.5}).Draw(t, "rate")
 				switch rapid.IntRange(0, 7).Draw(t, "hist") {
@@ -543,13 +547,22 @@ func TestRelayRoundTrip(t *testing.T) {
 			want.AddCounter(model.MakeKey(gostatsd.COUNTER, n, relayTags(c.Tags, c.Source), ""), c.Value, 1)
 			lines++
 		})
+		// the relay's line format is "%f": a value travels with six decimals by design
+		sixDecimals := func(v float64) float64 {
+			f, _ := strconv.ParseFloat(fmt.Sprintf("%f", v), 64)
+			return f
+		}
 		mm.Gauges.Each(func(n, _ string, g gostatsd.Gauge) {
-			want.AddGauge(model.MakeKey(gostatsd.GAUGE, n, relayTags(g.Tags, g.Source), ""), g.Value, 1)
+			want.AddGauge(model.MakeKey(gostatsd.GAUGE, n, relayTags(g.Tags, g.Source), ""), sixDecimals(g.Value), 1)
 			lines++
 		})
 		mm.Timers.Each(func(n, _ string, tm gostatsd.Timer) {
 			if len(tm.Values) > 0 {
-				want.AddTimer(model.MakeKey(gostatsd.TIMER, n, relayTags(tm.Tags, tm.Source), ""), tm.Values, float64(len(tm.Values)), 1)
+				vs := make([]float64, len(tm.Values))
+				for i, v := range tm.Values {
+					vs[i] = sixDecimals(v)
+				}
+				want.AddTimer(model.MakeKey(gostatsd.TIMER, n, relayTags(tm.Tags, tm.Source), ""), vs, float64(len(tm.Values)), 1)
 				lines += len(tm.Values)
 			}
 		})
@@ -634,4 +647,12 @@ func TestRelayEvents(t *testing.T) {
 		}
 		ev.C().Case("E|"+es.Line, es.Opt >= 2, "relay-event")
 	})
+}
+
+// sameFloat: equal up to the last couple of bits (a decimal rendering with 17 significant digits and back).
+func sameFloat(a, b float64) bool {
+	if a == b {
+		return true
+	}
+	return math.Abs(a-b) <= 4e-16*math.Max(math.Abs(a), math.Abs(b))
 }
